@@ -31,6 +31,8 @@ func init() {
 		c13Rmval(fs)
 		c13Magic(fs)
 		c13StatusMap(fs)
+		c13Wire(fs)
+		c13SeedMap(fs)
 	}})
 }
 
@@ -215,33 +217,122 @@ func c13Nan(fs *Facts) {
 		return
 	}
 	where := path + ":" + itoa(f.Line(clause))
-	if len(clause.Body) == 1 {
-		if r, ok := clause.Body[0].(*ast.ReturnStmt); ok && len(r.Results) == 2 && f.Str(r.Results[0]) == "cmpFloat64(af, bf)" && plain {
-			fs.Enum(name, "equal", where)
-			return
-		}
+	// structural reading of the clause: [bool definitions | NaN guards]* ; return cmpFloat64(X, Y), …
+	last, ok := clause.Body[len(clause.Body)-1].(*ast.ReturnStmt)
+	if !ok || len(last.Results) != 2 {
 		fs.Enum(name, "unknown", where)
 		return
 	}
-	if len(clause.Body) == 2 {
-		is, ok1 := clause.Body[0].(*ast.IfStmt)
-		r, ok2 := clause.Body[1].(*ast.ReturnStmt)
-		if ok1 && ok2 && is.Else == nil && len(r.Results) == 2 && f.Str(r.Results[0]) == "cmpFloat64(af, bf)" {
-			cond := f.Str(is.Cond)
-			guard := cond == "math.IsNaN(af) || math.IsNaN(bf)" || cond == "af != af || bf != bf"
-			errRet := false
-			if len(is.Body.List) == 1 {
-				if rr, ok := is.Body.List[0].(*ast.ReturnStmt); ok && len(rr.Results) == 2 && f.Str(rr.Results[1]) != "nil" {
+	call, ok := last.Results[0].(*ast.CallExpr)
+	if !ok || len(call.Args) != 2 || f.Str(call.Fun) != "cmpFloat64" {
+		fs.Enum(name, "unknown", where)
+		return
+	}
+	xa, okA := call.Args[0].(*ast.Ident)
+	xb, okB := call.Args[1].(*ast.Ident)
+	if !okA || !okB {
+		fs.Enum(name, "unknown", where)
+		return
+	}
+	env := map[string]ast.Expr{}
+	define := func(st ast.Stmt) bool {
+		as, ok := st.(*ast.AssignStmt)
+		if !ok || as.Tok != token.DEFINE || len(as.Lhs) != 1 || len(as.Rhs) != 1 {
+			return false
+		}
+		id, ok := as.Lhs[0].(*ast.Ident)
+		if !ok || id.Name == xa.Name || id.Name == xb.Name {
+			return false
+		}
+		env[id.Name] = as.Rhs[0]
+		return true
+	}
+	guarded := map[string]bool{}
+	guardLine := 0
+	for _, st := range clause.Body[:len(clause.Body)-1] {
+		if define(st) {
+			continue
+		}
+		is, ok := st.(*ast.IfStmt)
+		if !ok || is.Else != nil {
+			fs.Enum(name, "unknown", where)
+			return
+		}
+		if is.Init != nil && !define(is.Init) {
+			fs.Enum(name, "unknown", where)
+			return
+		}
+		ops, pure := c13NanOperands(is.Cond, env, 0)
+		errRet := false
+		if len(is.Body.List) == 1 {
+			if rr, ok := is.Body.List[0].(*ast.ReturnStmt); ok && len(rr.Results) == 2 {
+				if id, isId := rr.Results[1].(*ast.Ident); !isId || id.Name != "nil" {
 					errRet = true
 				}
 			}
-			if guard && errRet {
-				fs.Enum(name, "neverEqual", path+":"+itoa(f.Line(is)))
-				return
+		}
+		if !pure || !errRet {
+			fs.Enum(name, "unknown", where)
+			return
+		}
+		for o := range ops {
+			guarded[o] = true
+		}
+		guardLine = f.Line(is)
+	}
+	switch {
+	case guarded[xa.Name] && guarded[xb.Name]:
+		fs.Enum(name, "neverEqual", path+":"+itoa(guardLine))
+	case len(guarded) == 0 && len(clause.Body) == 1 && plain:
+		fs.Enum(name, "equal", where)
+	default:
+		fs.Enum(name, "unknown", where)
+	}
+}
+
+// c13NanOperands reads a boolean expression that is true iff one of a set of float variables is
+// NaN: `math.IsNaN(v)`, `v != v`, `||` of such, parentheses, and locally defined names for them.
+// pure = false: the expression is anything else.
+func c13NanOperands(e ast.Expr, env map[string]ast.Expr, depth int) (map[string]bool, bool) {
+	if depth > 8 {
+		return nil, false
+	}
+	switch x := e.(type) {
+	case *ast.ParenExpr:
+		return c13NanOperands(x.X, env, depth+1)
+	case *ast.Ident:
+		if d, ok := env[x.Name]; ok {
+			return c13NanOperands(d, env, depth+1)
+		}
+	case *ast.BinaryExpr:
+		if x.Op == token.LOR {
+			l, ok1 := c13NanOperands(x.X, env, depth+1)
+			r, ok2 := c13NanOperands(x.Y, env, depth+1)
+			if !ok1 || !ok2 {
+				return nil, false
+			}
+			for k := range r {
+				l[k] = true
+			}
+			return l, true
+		}
+		if x.Op == token.NEQ {
+			a, ok1 := x.X.(*ast.Ident)
+			b, ok2 := x.Y.(*ast.Ident)
+			if ok1 && ok2 && a.Name == b.Name {
+				return map[string]bool{a.Name: true}, true
+			}
+		}
+	case *ast.CallExpr:
+		if sel, ok := x.Fun.(*ast.SelectorExpr); ok && len(x.Args) == 1 {
+			if pk, ok := sel.X.(*ast.Ident); ok && pk.Name == "math" && sel.Sel.Name == "IsNaN" {
+				if v, ok := x.Args[0].(*ast.Ident); ok {
+					return map[string]bool{v.Name: true}, true
+				}
 			}
 		}
 	}
-	fs.Enum(name, "unknown", where)
+	return nil, false
 }
 
 func c13IncRule(fs *Facts) {
@@ -371,6 +462,46 @@ func c13Rmval(fs *Facts) {
 	eb, cv := f.Func("", "elementBytes"), f.Func("", "canonicalValue")
 	helpers := eb != nil && cv != nil && f.Contains(eb.Body, "item.Serialize(orig)") && f.Contains(eb.Body, "canonicalValue(") &&
 		f.Contains(cv.Body, "Parse(raw)") && f.Contains(cv.Body, "skel.Serialize(raw)") && f.Contains(cv.Body, "isMapCode(raw[0]) || isArrayCode(raw[0])")
+	// first match only: the loop holds `if bytes.Equal(·, ·) { cur.Target.ArrayItems = append(…[:i], …[i+1:]...); return nil }`
+	// (read from the syntax tree: the condition is the call itself, not a negation; the body removes index i and returns)
+	first := false
+	for _, st := range loop.Body.List {
+		is, ok := st.(*ast.IfStmt)
+		if !ok || is.Init != nil || is.Else != nil || len(is.Body.List) != 2 {
+			continue
+		}
+		call, ok := is.Cond.(*ast.CallExpr)
+		if !ok || f.Str(call.Fun) != "bytes.Equal" {
+			continue
+		}
+		as, ok1 := is.Body.List[0].(*ast.AssignStmt)
+		ret, ok2 := is.Body.List[1].(*ast.ReturnStmt)
+		key, ok3 := loop.Key.(*ast.Ident)
+		if !ok1 || !ok2 || !ok3 || len(as.Lhs) != 1 || len(as.Rhs) != 1 || len(ret.Results) != 1 || f.Str(ret.Results[0]) != "nil" {
+			continue
+		}
+		i := key.Name
+		if f.Str(as.Lhs[0]) == "cur.Target.ArrayItems" && as.Tok == token.ASSIGN &&
+			strings.Join(strings.Fields(f.Str(as.Rhs[0])), "") == "append(cur.Target.ArrayItems[:"+i+"],cur.Target.ArrayItems["+i+"+1:]...)" {
+			first = true
+		}
+	}
+	// nothing else in the function touches the item list
+	assigns := 0
+	ast.Inspect(fd.Body, func(n ast.Node) bool {
+		if as, ok := n.(*ast.AssignStmt); ok {
+			for _, l := range as.Lhs {
+				if f.Str(l) == "cur.Target.ArrayItems" {
+					assigns++
+				}
+			}
+		}
+		return true
+	})
+	if !first || assigns != 1 {
+		fs.Enum(name, "unknown", where)
+		return
+	}
 	switch {
 	case skips && rawCmp && !canonCmp:
 		fs.Enum(name, "scalarBytes", where)
